@@ -3,6 +3,7 @@
 from __future__ import annotations
 
 import ast
+import math
 import operator as op
 import re
 from typing import Any, Dict, List, Optional, Set, Tuple, Union
@@ -185,6 +186,12 @@ def _eval_const(expr: str, env: dict):
     """Evaluate a safe subset of Python expr to a constant using env (ints/floats/str)."""
 
     def ev(n):
+        value = _ev(n)
+        if isinstance(value, float) and not math.isfinite(value):
+            raise ValueError("non-finite constant")
+        return value
+
+    def _ev(n):
         if isinstance(n, ast.Constant) and isinstance(n.value, (int, float, str, bool)):
             return n.value
         if isinstance(n, ast.Name):
@@ -426,6 +433,8 @@ def _to_c_expr(
             if isinstance(n.value, bool):
                 return "true" if n.value else "false"
             if isinstance(n.value, (int, float)):
+                if isinstance(n.value, float) and not math.isfinite(n.value):
+                    raise ValueError("non-finite float literal")
                 return str(int(n.value)) if isinstance(n.value, int) else str(n.value)
             if isinstance(n.value, str):
                 return f'"{_escape_string_literal(n.value)}"'
@@ -3542,6 +3551,8 @@ def _parse_simple_lines(
                         if isinstance(entry, bool):
                             pattern_values.append(1 if entry else 0)
                         elif isinstance(entry, (int, float)):
+                            if isinstance(entry, float) and not math.isfinite(entry):
+                                raise ValueError("flash_pattern values must be finite")
                             pattern_values.append(int(entry))
                         else:
                             raise ValueError("flash_pattern values must be numeric")
